@@ -111,7 +111,7 @@ static pid_t children[8];
 
 /* payloads */
 #define MAXPAY 200000
-static int PAYSTATIC[4096];
+static int PAYSTATIC[65536];
 typedef struct { void *p; int id; int frees; } apay_t;
 #define MAXAPAY 30000
 static apay_t AP[MAXAPAY]; static int nap;
@@ -132,7 +132,7 @@ static ret_t RET[256]; static int nret;
 static const m_evt_t *cur_evts[MAXDEPTH][128]; static int cur_nevts[MAXDEPTH];
 static int cur_slot[MAXDEPTH]; static int depth;   /* callback nesting depth; 0 = outside callbacks */
 static atomic_int in_blocking;
-static unsigned long long call_id;
+static unsigned long long call_id, cur_call;
 
 /* ------------------------------------------------------------------ descriptor ledger */
 #define MAXFD 4096
@@ -250,7 +250,7 @@ static int slot_of_mod(const m_mod_t *m) {
 }
 static int payload_id(const void *p) {
     if (!p) return 0;
-    if ((const int *)p >= PAYSTATIC && (const int *)p < PAYSTATIC + 4096) return (int)((const int *)p - PAYSTATIC);
+    if ((const int *)p >= PAYSTATIC && (const int *)p < PAYSTATIC + 65536) return (int)((const int *)p - PAYSTATIC);
     for (int i = nap - 1; i >= 0; i--) if (AP[i].p == p && AP[i].frees == 0) return AP[i].id;
     return -1;
 }
@@ -481,10 +481,17 @@ static long long do_op(op_t *o) {
     case OP_STASH: { int k = (int)a[1]; if (depth > 0 && k >= 0 && k < cur_nevts[depth]) ret = m_mod_stash(H(a[0]), cur_evts[depth][k]); else ret = -1001; break; }
     case OP_UNSTASH: ret = m_mod_unstash(H(a[0]), a[1] < 0 ? SIZE_MAX : (size_t)a[1]); break;
     case OP_TELL: case OP_PUBLISH: {
-        void *payload; int pid = (int)a[2];
+        /* the scenario's payload id is only a hint: scripts may run many times, so every *executed* send gets a
+         * fresh unique payload (a delivery then identifies the send it came from) */
+        static int pay_seq;
+        void *payload; int pid;
         bool af = a[3] & M_PS_AUTOFREE;
+        pay_seq++;
+        pid = af ? TAG_PAY_BASE + pay_seq : 1 + (pay_seq % 65000);
+        if (a[2] == 0) pid = 0;      /* explicit NULL payload (must be refused) */
+        tr("N pay %llu %d", cur_call, pid);
         if (af) { if (nap >= MAXAPAY) { ret = -1002; break; } int *b = tagged_alloc(16, pid); b[0] = pid; AP[nap].p = b; AP[nap].id = pid; AP[nap].frees = 0; nap++; payload = b; }
-        else payload = pid > 0 && pid < 4096 ? &PAYSTATIC[pid] : NULL;
+        else payload = pid > 0 && pid < 65536 ? &PAYSTATIC[pid] : NULL;
         if (o->op == OP_TELL) ret = m_mod_ps_tell(H(a[0]), H(a[1]), payload, (m_ps_flags)a[3]);
         else ret = m_mod_ps_publish(H(a[0]), a[1] >= 0 ? topics[a[1]] : NULL, payload, (m_ps_flags)a[3]);
 #ifndef VF_NO_LEDGER
@@ -596,6 +603,7 @@ static void run_ops(script_t *s) {
         for (int k = 0; k < o->na && n < 180; k++) n += snprintf(args + n, sizeof(args) - n, " %lld", o->a[k]);
         args[n] = 0;
         tr("> %llu %d %s%s", id, depth, opnames[o->op], args);
+        cur_call = id;
         if (o->op != OP_ERRNO) errno = 0;
         long long r = do_op(o);
         int e = errno;
@@ -688,7 +696,7 @@ int main(int argc, char **argv) {
     if (argc > 1 && strcmp(argv[1], "-") != 0) { in = fopen(argv[1], "r"); if (!in) { perror("scenario"); return 2; } }
     if (argc > 2 && strcmp(argv[2], "-") != 0) { trace_fd = open(argv[2], O_CREAT | O_WRONLY | O_TRUNC, 0600); if (trace_fd < 0) { perror("trace"); return 2; } }
     else { trace_fd = __real_dup(1); int nul = open("/dev/null", O_WRONLY); dup2(nul, 1); __real_close(nul); }
-    for (int i = 0; i < 4096; i++) PAYSTATIC[i] = i;
+    for (int i = 0; i < 65536; i++) PAYSTATIC[i] = i;
     /* signals used by scenarios stay blocked so that raising them never kills the process */
     sigset_t m; sigemptyset(&m); sigaddset(&m, SIGUSR1); sigaddset(&m, SIGUSR2); for (int s = SIGRTMIN; s < SIGRTMIN + 6; s++) sigaddset(&m, s);
     sigprocmask(SIG_BLOCK, &m, NULL);
